@@ -430,11 +430,54 @@ def renderEvs (ap : Bool) : Vis → List Ev → List String
     | .usedEvent x =>
       (if v.usedEvent = x then "nochange" else s.str) :: renderEvs ap { v with usedEvent := x } rest
 
+/-- apply the stores of an operation to the device-visible image -/
+def Vis.apply (v : Vis) : List Ev → Vis
+  | [] => v
+  | .hal _ :: rest => v.apply rest
+  | .st s :: rest =>
+    match s with
+    | .desc i d => ({ v with descTable := v.descTable.setIfInBounds i d }).apply rest
+    | .ring sl x => ({ v with availRing := v.availRing.setIfInBounds sl x }).apply rest
+    | .idx x => ({ v with idx := x }).apply rest
+    | .flags x => ({ v with flags := x }).apply rest
+    | .usedEvent x => ({ v with usedEvent := x }).apply rest
+
+/-- the location a store writes, as a text key -/
+def Store.key : Store → String
+  | .desc i _ => s!"desc[{i}]"
+  | .ring sl _ => s!"ring[{sl}]"
+  | .idx _ => "idx"
+  | .flags _ => "flags"
+  | .usedEvent _ => "used_event"
+
+/-- **Net effect** of an operation on driver-written device-visible memory, as the observer of the
+harness sees it: the locations whose value after the operation differs from the value before it, as
+sorted texts, the available index last.  Which intermediate values a location went through, and in which
+order different locations were written before the index store, is not compared (the properties do
+not fix it; "index last" is a theorem about the event list and an oracle on the real store sequence). -/
+def netStores (v0 : Vis) (evs : List Ev) : List String :=
+  let v1 := v0.apply evs
+  let stores := evs.filterMap fun e => match e with | .st s => some s | .hal _ => none
+  -- one representative per location touched
+  let keys := stores.foldl (fun acc s => if acc.any (fun t => t.key == s.key) then acc else acc ++ [s]) []
+  let final : Store → Option Store := fun s =>
+    match s with
+    | .desc i _ => if v1.descTable.getD i default = v0.descTable.getD i default then none else some (.desc i (v1.descTable.getD i default))
+    | .ring sl _ => if v1.availRing.getD sl 0 = v0.availRing.getD sl 0 then none else some (.ring sl (v1.availRing.getD sl 0))
+    | .idx _ => if v1.idx = v0.idx then none else some (.idx v1.idx)
+    | .flags _ => if v1.flags = v0.flags then none else some (.flags v1.flags)
+    | .usedEvent _ => if v1.usedEvent = v0.usedEvent then none else some (.usedEvent v1.usedEvent)
+  let changed := keys.filterMap final
+  let idx := changed.filter fun s => s.key == "idx"
+  let rest := (changed.filter fun s => s.key != "idx").map Store.str
+  (rest.toArray.qsort (· < ·)).toList ++ idx.map Store.str
+
 def outStr (q0 q : Q) (r : Res) (evs : List Ev) (nost : Bool := false) : String :=
   -- `nost`: a hostile device scribbles over the driver-owned areas, so the snapshot-diffing
   -- observer cannot be predicted; only platform events are compared then
-  let evs := if nost then evs.filter (fun e => match e with | .hal _ => true | .st _ => false) else evs
-  let e := if evs.isEmpty then "-" else Proto.joinWith " " (renderEvs q.ap q0.vis evs)
+  let hal := evs.filterMap fun e => match e with | .hal h => some (h.str q.ap) | .st _ => none
+  let toks := hal ++ (if nost then [] else netStores q0.vis evs)
+  let e := if toks.isEmpty then "-" else Proto.joinWith " " toks
   s!"{r.str} | {e} | {q.privStr}"
 
 /-- `id:len,id:len` -/
